@@ -4,10 +4,15 @@
    and its NUL, every store into the block from malloc() answers JOob outside the block, a failed assert()
    answers JOob too); proofs: JsonNumP.v.
 
-   Result: memory safety holds at full strength (C05_jsonnum_no_oob). The computed length is NOT always
-   the number of bytes stored, and the produced text is NOT always the number that was given: the second
-   layout of lyjson_exp_number() (leading `0.` and the new decimal point inside the digits) is wrong, see
-   the ..._refuted theorems; what remains true of the length is C05_jsonnum_len_bounded.
+   History: an earlier version of the code (and of the model) was wrong in the second layout of
+   lyjson_exp_number() (leading `0.` and the new decimal point inside the digits): the position of the
+   new decimal point was taken before the useless leading zeros were dropped and its byte was not counted
+   in buf_len, so 0.5E1 gave `.`, 0.55E1 `.5`, 0.055E2 `5.`, 0.0055E3 `55` (silently another number) and
+   0.123456E3 `12.345`, one byte more than buf_len being stored (still inside the block). This file then
+   held ..._len_exact_refuted, ..._denotes_refuted(_silent) with these witnesses and the weaker
+   ..._len_bounded. The defect was fixed in /repo commit 63186d2. The model transcribes the fixed code
+   and the three properties now hold at full strength for every input; the former witnesses are kept as a
+   regression example.
    Not covered: pointer VALUES that leave the object without being dereferenced (header of JsonNum.v). *)
 From LY Require Import Base JsonNum JsonNumP.
 Local Open Scope Z_scope.
@@ -24,66 +29,55 @@ Theorem C05_jsonnum_no_oob :
 Proof. exact number_c_no_oob. Qed.
 Print Assumptions C05_jsonnum_no_oob.
 
-(* `computed length = bytes written` is FALSE as coded: for 0.5E1 two bytes are stored (`.` and `5`)
-   but buf_len is 1; the terminating NUL overwrites the second byte *)
-Theorem C05_jsonnum_len_exact_refuted :
-  exists s r x, number_c s = JOk r /\ n_exp r = Some x /\ x_end x <> x_len x.
-Proof. exact len_exact_refuted. Qed.
-Print Assumptions C05_jsonnum_len_exact_refuted.
-
-(* the wrong results as coded:  0.5E1 -> `.`   0.55E1 -> `.5`   0.055E2 -> `5.`   0.0055E3 -> `55`
-   0.123456E3 -> `12.345` *)
-Example C05_jsonnum_wrong_values :
-  value_of w_05E1 = [Some 46%N] /\
-  value_of w_055E1 = [Some 46%N; Some 53%N] /\
-  value_of w_0055E2 = [Some 53%N; Some 46%N] /\
-  value_of w_00055E3 = [Some 53%N; Some 53%N] /\
-  value_of w_0123456E3 = [Some 49%N; Some 50%N; Some 46%N; Some 51%N; Some 52%N; Some 53%N].
-Proof. exact wrong_values. Qed.
-
-(* the part of `computed length = bytes written + NUL` that does hold, for every text: the block has
-   exactly buf_len + 1 bytes and that is at most LY_NUMBER_MAXLEN; the bytes stored before the NUL are
-   buf_len or buf_len + 1, so they never leave the block; outside layout 2 the count is exact; and the
-   value handed on (the first buf_len bytes) never contains a byte that was not written, i.e. no
-   uninitialised heap byte *)
-Theorem C05_jsonnum_len_bounded :
+(* computed length = bytes written + NUL, at full strength: whenever lyjson_exp_number() produces a
+   value, the block has exactly buf_len + 1 bytes, that is at most LY_NUMBER_MAXLEN, exactly buf_len
+   bytes are stored before the terminating NUL (in every one of the five layouts), and the value handed
+   on never contains a byte that was not written, i.e. no uninitialised heap byte *)
+Theorem C05_jsonnum_len_exact :
   forall s : bytes, (Z.of_nat (length s) < 4294967296)%Z ->
   forall r x, number_c s = JOk r -> n_exp r = Some x ->
-    Z.of_nat (length (x_buf x)) = x_len x + 1 /\ 0 <= x_len x < 22 /\
-    x_len x <= x_end x <= x_len x + 1 /\ (x_branch x <> 2%N -> x_end x = x_len x) /\
+    Z.of_nat (length (x_buf x)) = x_len x + 1 /\ 0 <= x_len x < 22 /\ x_end x = x_len x /\
     all_init (n_value r) = true.
-Proof. exact number_c_len_bounded. Qed.
-Print Assumptions C05_jsonnum_len_bounded.
+Proof. exact number_c_len_exact. Qed.
+Print Assumptions C05_jsonnum_len_exact.
 
-(* `the produced text denotes the number that was given` is FALSE as coded: 0.5E1 gives `.` *)
-Theorem C05_jsonnum_denotes_refuted :
-  exists s r, number_c s = JOk r /\ denotes_ok (cstr s) r = false.
-Proof. exact denotes_refuted. Qed.
-Print Assumptions C05_jsonnum_denotes_refuted.
+(* the value is right, at full strength: for EVERY accepted text, the bytes that become jsonctx->value
+   are all initialised, form a well-formed plain decimal (optional minus, digits, optional point with
+   digits on both sides) and denote the same rational number as the JSON text that was consumed:
+   mantissa x 10^exponent. This covers the five layouts of lyjson_exp_number() and the three outcomes
+   without conversion (zero mantissa gives 0 or -0, zero exponent and no exponent give the mantissa
+   verbatim). denotes_ok / json_denote / dec_denote / same_value are defined in JsonNum.v. *)
+Theorem C05_jsonnum_denotes :
+  forall s : bytes, (Z.of_nat (length s) < 4294967296)%Z ->
+  forall r, number_c s = JOk r -> denotes_ok (cstr s) r = true.
+Proof. exact number_c_denotes. Qed.
+Print Assumptions C05_jsonnum_denotes.
 
-(* and it can fail silently: 0.0055E3 is 55 * 10^-1 = 5.5, the text produced is `55`, a well-formed
-   decimal that a later parser accepts as another number *)
-Theorem C05_jsonnum_denotes_refuted_silent :
-  exists s r, number_c s = JOk r /\ denotes_ok (cstr s) r = false /\
-              json_denote (cstr s) = Some (55, -1) /\ dec_denote (cells_bytes (n_value r)) = Some (55, 0).
-Proof. exact denotes_refuted_silent. Qed.
-Print Assumptions C05_jsonnum_denotes_refuted_silent.
-
-(* finite sweep (37449 strings: all of at most five characters over  0 1 5 - + . E e): whenever the
-   number is accepted and the result is not produced by layout 2, the produced text is initialised, a
-   well-formed decimal, and denotes the number that was given. The sweep meets all five layouts
-   (sweep_layouts in JsonNumP.v) *)
+(* the same statement on a finite set (37449 strings: all of at most five characters over
+   0 1 5 - + . E e), by computation only and without any exclusion: a check of the theorem above that
+   does not go through its proof. The set meets all five layouts (sweep_layouts in JsonNumP.v). *)
 Theorem C05_jsonnum_denotes_bounded :
   forall s, (length s <= 5)%nat -> Forall (fun c => In c sweep_alphabet) s ->
-  forall r, number_c s = JOk r ->
-    (n_dynamic r = false \/ exists x, n_exp r = Some x /\ x_branch x <> 2%N) ->
-    denotes_ok (cstr s) r = true.
+  forall r, number_c s = JOk r -> denotes_ok (cstr s) r = true.
 Proof. exact denotes_bounded. Qed.
 Print Assumptions C05_jsonnum_denotes_bounded.
 
+(* regression: the former witnesses of the layout-2 defect now give
+   0.5E1 -> `5`   0.55E1 -> `5.5`   0.055E2 -> `5.5`   0.0055E3 -> `5.5`   0.123456E3 -> `123.456`
+   and each denotes the number that was given *)
+Example C05_jsonnum_former_witnesses :
+  value_of w_05E1 = [Some 53%N] /\
+  value_of w_055E1 = [Some 53%N; Some 46%N; Some 53%N] /\
+  value_of w_0055E2 = [Some 53%N; Some 46%N; Some 53%N] /\
+  value_of w_00055E3 = [Some 53%N; Some 46%N; Some 53%N] /\
+  value_of w_0123456E3 = [Some 49%N; Some 50%N; Some 51%N; Some 46%N; Some 52%N; Some 53%N; Some 54%N] /\
+  map denotes_of [w_05E1; w_055E1; w_0055E2; w_00055E3; w_0123456E3] = [true; true; true; true; true].
+Proof. exact former_witnesses. Qed.
+
 (* the statements are not vacuous: -12.5E-1 is accepted, layout 3, and gives -1.25 with an exact count;
-   1E-2 gives 0.01 (layout 1); 0.25E4 gives 2500 (layout 4); 1.5E1 gives 15 (layout 5); `1E` is
-   rejected; 1E99999 has an exponent out of bounds; 1E30 exceeds LY_NUMBER_MAXLEN *)
+   1E-2 gives 0.01 (layout 1); 0.025E2 gives 2.5 (layout 2); 0.25E4 gives 2500 (layout 4); 1.5E1 gives 15
+   (layout 5); -0.00E7 gives -0; 12.50E0 gives 12.50; `1E` is rejected; 1E99999 has an exponent out of
+   bounds; 1E30 exceeds LY_NUMBER_MAXLEN *)
 Example C05_jsonnum_hypotheses_satisfiable :
   let s := [45;49;50;46;53;69;45;49]%N in
   (Z.of_nat (length s) < 4294967296)%Z /\
@@ -91,8 +85,11 @@ Example C05_jsonnum_hypotheses_satisfiable :
                denotes_ok (cstr s) r = true) /\
   value_of s = [Some 45%N; Some 49%N; Some 46%N; Some 50%N; Some 53%N] /\
   value_of [49;69;45;50]%N = [Some 48%N; Some 46%N; Some 48%N; Some 49%N] /\
+  value_of [48;46;48;50;53;69;50]%N = [Some 50%N; Some 46%N; Some 53%N] /\
   value_of [48;46;50;53;69;52]%N = [Some 50%N; Some 53%N; Some 48%N; Some 48%N] /\
   value_of [49;46;53;69;49]%N = [Some 49%N; Some 53%N] /\
+  value_of [45;48;46;48;48;69;55]%N = [Some 45%N; Some 48%N] /\
+  value_of [49;50;46;53;48;69;48]%N = [Some 49%N; Some 50%N; Some 46%N; Some 53%N; Some 48%N] /\
   number_c [49;69]%N = JErr E_CHAR /\
   number_c [49;69;57;57;57;57;57]%N = JErr E_EXP /\
   number_c [49;69;51;48]%N = JErr E_MAXLEN.
